@@ -254,6 +254,14 @@ impl VHDLFormatter<'_> {
             buffer,
         );
         buffer.push_whitespace();
+        if assignment_statement.guarded {
+            // guarded
+            self.format_token_id(
+                assignment_statement.assignment.target.span.end_token + 2,
+                buffer,
+            );
+            buffer.push_whitespace();
+        }
         if let Some(mechanism) = &assignment_statement.assignment.delay_mechanism {
             self.format_delay_mechanism(mechanism, buffer);
             buffer.push_whitespace();
